@@ -450,7 +450,7 @@ fn read_real(buf: &[u8], n: usize, max: u32, strict: bool) -> (&'static str, Opt
     let r = catch(|| read_pdu(&mut cur, max, strict));
     match r {
         Err(p) => ("panic", None, 0, p.chars().take(160).collect()),
-        Ok(Err(e)) => ("err", None, 0, short(&e)),
+        Ok(Err(e)) => ("err", None, 0, short(&snafu_chain(&e))),
         Ok(Ok(None)) => ("none", None, 0, String::new()),
         Ok(Ok(Some(p))) => ("pdu", Some(p), cur.position(), String::new()),
     }
@@ -992,6 +992,358 @@ fn random_segs(rng: &mut Rng, total: usize) -> Vec<usize> {
     segs
 }
 
+
+// ----------------------------------------------------------------------------- growth: malformed PDUs (thorough tier)
+
+fn read_obs(buf: &[u8], max: u32, strict: bool) -> Value {
+    let (res, pdu, consumed, msg) = read_real(buf, buf.len(), max, strict);
+    let mut o = json!({"res": res});
+    if let Some(p) = pdu {
+        o["pdu"] = pdu_to_json(&p);
+        o["n"] = Value::from(consumed);
+    }
+    if !msg.is_empty() {
+        o["msg"] = Value::from(msg);
+    }
+    o
+}
+
+/// up to two receives on `stream` through the real receiver; each: {res, pdu?, msg?, rest}
+fn recv_obs(rt: &tokio::runtime::Runtime, stream: &[u8], segs: &[usize], is_async: bool) -> Vec<Value> {
+    let log = Rc::new(RefCell::new(Vec::new()));
+    let mut reader = Script::new(stream.to_vec(), segs, log);
+    let mut rb = BytesMut::new();
+    let mut out = Vec::new();
+    for _ in 0..2 {
+        let r = if is_async {
+            catch(|| rt.block_on(read_pdu_from_wire_async(&mut reader, &mut rb, BIGMAX, false)))
+        } else {
+            catch(|| read_pdu_from_wire(&mut reader, &mut rb, BIGMAX, false))
+        };
+        match r {
+            Ok(Ok(p)) => out.push(json!({"res": "pdu", "pdu": pdu_to_json(&p), "rest": rb.len()})),
+            Ok(Err(dicom_ul::association::Error::ConnectionClosed { .. })) => {
+                out.push(json!({"res": "closed", "rest": rb.len()}));
+                break;
+            }
+            Ok(Err(e)) => {
+                out.push(json!({"res": "err", "msg": short(&snafu_chain(&e)), "rest": rb.len()}));
+                break;
+            }
+            Err(p) => {
+                out.push(json!({"res": "panic", "msg": p}));
+                break;
+            }
+        }
+    }
+    out
+}
+
+fn snafu_chain(e: &dyn std::error::Error) -> String {
+    let mut s = e.to_string();
+    let mut cur = e.source();
+    while let Some(c) = cur {
+        s.push_str(": ");
+        s.push_str(&c.to_string());
+        cur = c.source();
+    }
+    s
+}
+
+
+// ----------------------------------------------------------------------------- growth: scpproxy (thorough tier)
+
+mod proxy {
+    use super::*;
+    use std::io::{BufRead, BufReader, Write};
+    use std::net::{TcpListener, TcpStream};
+    use std::process::{Child, Command, Stdio};
+    use std::sync::mpsc;
+    use std::time::{Duration, Instant};
+
+    pub const PMAX: u32 = 16378;
+    const WAIT: Duration = Duration::from_secs(4);
+
+    pub struct ProxyProc {
+        pub child: Child,
+        pub port: u16,
+        pub strict: bool,
+    }
+
+    fn free_port() -> u16 {
+        TcpListener::bind("127.0.0.1:0").unwrap().local_addr().unwrap().port()
+    }
+
+    pub fn spawn(bin: &str, server_port: u16, strict: bool) -> ProxyProc {
+        for _ in 0..20 {
+            let port = free_port();
+            let mut cmd = Command::new(bin);
+            cmd.args(["127.0.0.1", &server_port.to_string(), "-l", &port.to_string(), "-m", &PMAX.to_string(), "-v"]);
+            if strict {
+                cmd.arg("-s");
+            }
+            // the proxy's stderr (panic messages) is appended to <VERIF_PROXY_STDERR> when set
+            let err = match std::env::var("VERIF_PROXY_STDERR") {
+                Ok(p) => Stdio::from(std::fs::OpenOptions::new().create(true).append(true).open(p).expect("stderr file")),
+                Err(_) => Stdio::null(),
+            };
+            let mut child = cmd.stdout(Stdio::piped()).stderr(err).stdin(Stdio::null()).spawn().expect("spawn scpproxy");
+            let out = child.stdout.take().unwrap();
+            let (tx, rx) = mpsc::channel();
+            std::thread::spawn(move || {
+                for line in BufReader::new(out).lines().map_while(Result::ok) {
+                    if line.starts_with("listening on") {
+                        let _ = tx.send(());
+                    }
+                }
+            });
+            if rx.recv_timeout(Duration::from_secs(10)).is_ok() {
+                return ProxyProc { child, port, strict };
+            }
+            let _ = child.kill();
+            let _ = child.wait();
+        }
+        panic!("harness: could not start scpproxy");
+    }
+
+    fn maxlen_rq(m: u32) -> Pdu {
+        Pdu::AssociationRQ(AssociationRQ {
+            protocol_version: 1,
+            calling_ae_title: "SCU".into(),
+            called_ae_title: "ANY-SCP".into(),
+            application_context_name: "1.2.840.10008.3.1.1.1".into(),
+            presentation_contexts: vec![PresentationContextProposed {
+                id: 1,
+                abstract_syntax: "1.2.840.10008.1.1".into(),
+                transfer_syntaxes: vec!["1.2.840.10008.1.2".into(), "1.2.840.10008.1.2.1".into()],
+            }],
+            user_variables: vec![
+                UserVariableItem::MaxLength(m),
+                UserVariableItem::ImplementationClassUID("1.2.3.4".into()),
+                UserVariableItem::ImplementationVersionName("V".into()),
+            ],
+        })
+    }
+    fn maxlen_ac(m: u32) -> Pdu {
+        Pdu::AssociationAC(AssociationAC {
+            protocol_version: 1,
+            calling_ae_title: "SCU".into(),
+            called_ae_title: "ANY-SCP".into(),
+            application_context_name: "1.2.840.10008.3.1.1.1".into(),
+            presentation_contexts: vec![PresentationContextResult {
+                id: 1,
+                reason: PresentationContextResultReason::Acceptance,
+                transfer_syntax: "1.2.840.10008.1.2".into(),
+            }],
+            user_variables: vec![UserVariableItem::ImplementationClassUID("1.2.3.5".into()), UserVariableItem::MaxLength(m)],
+        })
+    }
+    fn pdata(n: usize, salt: usize, two: bool) -> Pdu {
+        let mut data = vec![PDataValue {
+            presentation_context_id: 1,
+            value_type: PDataValueType::Command,
+            is_last: true,
+            data: pattern(n, salt),
+        }];
+        if two {
+            data.push(PDataValue { presentation_context_id: 1, value_type: PDataValueType::Data, is_last: false, data: pattern(5, salt + 1) });
+        }
+        Pdu::PData { data }
+    }
+    pub fn pdu_of_kind(kind: &str, idx: usize) -> Pdu {
+        match kind {
+            "rq0" => maxlen_rq(0),
+            "rq16384" => maxlen_rq(16384),
+            "rqmax" => maxlen_rq(u32::MAX),
+            "ac16384" => maxlen_ac(16384),
+            "acmax" => maxlen_ac(u32::MAX),
+            "pdata" => pdata(40 + idx, idx, false),
+            "pdata2" => pdata(3, idx, true),
+            "pdatabig" => pdata(PMAX as usize + 50, idx, false),
+            "rrq" => Pdu::ReleaseRQ,
+            "rrp" => Pdu::ReleaseRP,
+            "abort" => Pdu::AbortRQ { source: AbortRQSource::ServiceUser },
+            "rj" => Pdu::AssociationRJ(AssociationRJ {
+                result: AssociationRJResult::Transient,
+                source: AssociationRJSource::ServiceProviderPresentation(AssociationRJServiceProviderPresentationReason::LocalLimitExceeded),
+            }),
+            "unknown" => Pdu::Unknown { pdu_type: 0x42, data: pattern(9, idx) },
+            k => panic!("harness: unknown proxy PDU kind {k}"),
+        }
+    }
+
+    fn write_frames(tr: &mut Tr, s: &mut TcpStream, by: &str, frames: &[Vec<u8>], seg: &str) {
+        for f in frames {
+            tr.emit(json!({"ev": "psend", "by": by, "frame": bytes_json(f)}));
+        }
+        let all: Vec<u8> = frames.concat();
+        let r = match seg {
+            "whole" => s.write_all(&all),
+            "pdu" => frames.iter().try_for_each(|f| s.write_all(f).and_then(|_| s.flush())),
+            _ => {
+                let step = if all.len() > 400 { 97 } else { 1 };
+                all.chunks(step).try_for_each(|c| s.write_all(c).and_then(|_| s.flush()))
+            }
+        };
+        if let Err(e) = r {
+            tr.emit(json!({"ev": "pnote", "what": format!("write by {by} failed: {e}")}));
+        }
+    }
+
+    /// read until `want` bytes arrived, the end of the stream, or the time budget; returns (bytes, eof, timed_out)
+    fn read_upto(s: &mut TcpStream, want: usize, until_eof: bool) -> (Vec<u8>, bool, bool) {
+        let mut got = Vec::new();
+        let mut buf = [0u8; 65536];
+        let t0 = Instant::now();
+        s.set_read_timeout(Some(Duration::from_millis(200))).unwrap();
+        loop {
+            if !until_eof && got.len() >= want {
+                return (got, false, false);
+            }
+            match std::io::Read::read(s, &mut buf) {
+                Ok(0) => return (got, true, false),
+                Ok(n) => got.extend_from_slice(&buf[..n]),
+                Err(e) if e.kind() == std::io::ErrorKind::WouldBlock || e.kind() == std::io::ErrorKind::TimedOut => {
+                    if t0.elapsed() > WAIT {
+                        return (got, false, true);
+                    }
+                }
+                // a reset connection is an end of stream for the peer
+                Err(_) => return (got, true, false),
+            }
+        }
+    }
+
+    fn emit_arrived(tr: &mut Tr, to: &str, got: &[u8], eof: bool, timed_out: bool) {
+        let mut i = 0;
+        while got.len() - i >= 6 {
+            let l = u32::from_be_bytes([got[i + 2], got[i + 3], got[i + 4], got[i + 5]]) as usize;
+            if got.len() - i < 6 + l {
+                break;
+            }
+            tr.emit(json!({"ev": "pfwd", "to": to, "frame": bytes_json(&got[i..i + 6 + l])}));
+            i += 6 + l;
+        }
+        if i < got.len() {
+            tr.emit(json!({"ev": "pstray", "to": to, "n": got.len() - i}));
+        }
+        if eof {
+            tr.emit(json!({"ev": "peof", "at": to}));
+        }
+        if timed_out {
+            tr.emit(json!({"ev": "ptimeout", "at": to}));
+        }
+    }
+
+    pub struct Outcome {
+        pub died: bool,
+    }
+
+    pub fn run_case(tr: &mut Tr, listener: &TcpListener, px: &mut ProxyProc, c: &Value) -> Outcome {
+        let kinds = |k: &str| -> Vec<Vec<u8>> {
+            j_arr(&c[k]).iter().enumerate().map(|(i, x)| write_real(&pdu_of_kind(j_str(x), i)).unwrap().unwrap()).collect()
+        };
+        let (c2s, s2c) = (kinds("c2s"), kinds("s2c"));
+        let closer = j_str(&c["closer"]);
+        let early = jbool(&c["early"]);
+        let seg = j_str(&c["seg"]);
+        tr.emit(json!({"ev": "preset", "max": [PMAX >> 16, PMAX & 0xffff], "strict": px.strict, "scenario": c}));
+        let mut cli = match TcpStream::connect(("127.0.0.1", px.port)) {
+            Ok(s) => s,
+            Err(e) => {
+                tr.emit(json!({"ev": "pnote", "what": format!("connect to proxy failed: {e}")}));
+                return Outcome { died: px.child.try_wait().ok().flatten().is_some() };
+            }
+        };
+        cli.set_nodelay(true).ok();
+        listener.set_nonblocking(true).unwrap();
+        let t0 = Instant::now();
+        let mut srv = loop {
+            match listener.accept() {
+                Ok((s, _)) => break Some(s),
+                Err(_) if t0.elapsed() < WAIT => std::thread::sleep(Duration::from_millis(2)),
+                Err(_) => break None,
+            }
+        };
+        let Some(srv) = srv.as_mut() else {
+            tr.emit(json!({"ev": "pnote", "what": "proxy did not connect to the destination"}));
+            return Outcome { died: px.child.try_wait().ok().flatten().is_some() };
+        };
+        srv.set_nonblocking(false).unwrap();
+        srv.set_nodelay(true).ok();
+
+        if c.get("hazard").and_then(|h| h.as_bool()).unwrap_or(false) {
+            // the SCP goes away at once; the SCU keeps writing PDU after PDU
+            let _ = srv.shutdown(std::net::Shutdown::Both);
+            tr.emit(json!({"ev": "pclose", "by": "s"}));
+            for f in &c2s {
+                tr.emit(json!({"ev": "psend", "by": "c", "frame": bytes_json(f)}));
+                if cli.write_all(f).is_err() {
+                    break;
+                }
+                std::thread::sleep(Duration::from_millis(2));
+            }
+            let (got, e, to) = read_upto(&mut cli, 0, true);
+            emit_arrived(tr, "c", &got, e, to);
+            tr.emit(json!({"ev": "pend", "closer": "s"}));
+            drop(cli);
+            std::thread::sleep(Duration::from_millis(20));
+            let died = px.child.try_wait().ok().flatten().is_some();
+            if died {
+                tr.emit(json!({"ev": "pnote", "what": "scpproxy process exited"}));
+            }
+            return Outcome { died };
+        }
+        // 1. the SCU writes; (early) closes at once
+        write_frames(tr, &mut cli, "c", &c2s, seg);
+        let mut cli_open = true;
+        if early {
+            let _ = cli.shutdown(std::net::Shutdown::Both);
+            cli_open = false;
+            tr.emit(json!({"ev": "pclose", "by": "c"}));
+        }
+        // 2. the SCP receives
+        let want: usize = c2s.iter().map(|f| f.len()).sum();
+        let (got, eof_s, to) = read_upto(srv, want, early);
+        emit_arrived(tr, "s", &got, eof_s, to);
+        let mut eof_c = false;
+        if !early {
+            // 3. the SCP writes, the SCU receives
+            write_frames(tr, srv, "s", &s2c, seg);
+            let want: usize = s2c.iter().map(|f| f.len()).sum();
+            let (got, e, to) = read_upto(&mut cli, want, false);
+            eof_c = e;
+            emit_arrived(tr, "c", &got, e, to);
+            // 4. the closer closes, the other peer reads to the end of the stream
+            if closer == "c" {
+                let _ = cli.shutdown(std::net::Shutdown::Both);
+                cli_open = false;
+                tr.emit(json!({"ev": "pclose", "by": "c"}));
+                if !eof_s {
+                    let (got, e, to) = read_upto(srv, 0, true);
+                    emit_arrived(tr, "s", &got, e, to);
+                }
+            } else {
+                let _ = srv.shutdown(std::net::Shutdown::Both);
+                tr.emit(json!({"ev": "pclose", "by": "s"}));
+                if !eof_c {
+                    let (got, e, to) = read_upto(&mut cli, 0, true);
+                    emit_arrived(tr, "c", &got, e, to);
+                }
+            }
+        }
+        tr.emit(json!({"ev": "pend", "closer": if early { "c" } else { closer }}));
+        let _ = cli_open;
+        drop(cli);
+        std::thread::sleep(Duration::from_millis(3));
+        let died = px.child.try_wait().ok().flatten().is_some();
+        if died {
+            tr.emit(json!({"ev": "pnote", "what": "scpproxy process exited"}));
+        }
+        Outcome { died }
+    }
+}
+
 // ----------------------------------------------------------------------------- main
 
 fn main() {
@@ -1058,6 +1410,57 @@ fn main() {
             let path = tr.path.clone();
             let nl = tr.w.finish();
             files.push(json!({"path": path, "events": nl}));
+        }
+        "mutants" => {
+            // observations only: python compares them with the outcomes PS38PduLenient.tla allows
+            let rt = tokio::runtime::Builder::new_current_thread().enable_all().build().unwrap();
+            let cases = read_ndjson(args.get("cases").expect("--cases"));
+            let path = format!("{out_dir}/observed.ndjson");
+            let mut w = NdjsonWriter::create(&path);
+            let next: [u8; 10] = [5, 0, 0, 0, 0, 4, 0, 0, 0, 0];
+            for (i, c) in cases.iter().enumerate() {
+                rep.cases += 1;
+                let b = j_bytes(&c["bytes"]);
+                let mut stream = b.clone();
+                stream.extend_from_slice(&next);
+                let ones: Vec<usize> = vec![1; stream.len()];
+                let mut rx = Vec::new();
+                for is_async in [false, true] {
+                    for (sn, segs) in [("whole", vec![stream.len()]), ("ones", ones.clone())] {
+                        rx.push(json!({"async": is_async, "seg": sn, "recv": recv_obs(&rt, &stream, &segs, is_async)}));
+                    }
+                }
+                w.emit(&json!({"i": i, "read": read_obs(&b, BIGMAX, false), "read_strict": read_obs(&b, BIGMAX, true), "rx": rx}));
+            }
+            let n = w.finish();
+            files.push(json!({"path": path, "events": n}));
+        }
+        "proxy" => {
+            let bin = args.get("proxy-bin").expect("--proxy-bin").clone();
+            let cases = read_ndjson(args.get("cases").expect("--cases"));
+            let listener = std::net::TcpListener::bind("127.0.0.1:0").unwrap();
+            let sport = listener.local_addr().unwrap().port();
+            let mut tr = Tr::new(&out_dir, "trace_proxy.ndjson");
+            let mut px = [proxy::spawn(&bin, sport, false), proxy::spawn(&bin, sport, true)];
+            let mut deaths = 0usize;
+            for c in &cases {
+                rep.cases += 1;
+                let k = if jbool(&c["strict"]) { 1 } else { 0 };
+                let o = proxy::run_case(&mut tr, &listener, &mut px[k], c);
+                if o.died {
+                    deaths += 1;
+                    let _ = px[k].child.wait();
+                    px[k] = proxy::spawn(&bin, sport, k == 1);
+                }
+            }
+            for p in px.iter_mut() {
+                let _ = p.child.kill();
+                let _ = p.child.wait();
+            }
+            rep.extra.insert("proxy_deaths".into(), json!(deaths));
+            let path = tr.path.clone();
+            let n = tr.w.finish();
+            files.push(json!({"path": path, "events": n}));
         }
         "wire-replay" | "wire-random" => {
             let rt = tokio::runtime::Builder::new_current_thread().enable_all().build().unwrap();
